@@ -52,35 +52,56 @@ theorem resolve_eq (mm : Option Mm) (maxB : Nat) :
     (match mm with | some m => m | none => defaultMm maxB) = resolveMm mm maxB := by
   cases mm <;> rfl
 
+theorem pow2c_t {x : Nat} (h : IsPow2 x) : isPow2C x = true := (isPow2C_iff x).2 h
+theorem pow2c_f {x : Nat} (h : ¬ IsPow2 x) : isPow2C x = false := by
+  cases hc : isPow2C x
+  · rfl
+  · exact absurd ((isPow2C_iff x).1 hc) h
+
+/-- `max_nr_buckets` as tested for being a power of two (0 ↦ 2^63 for the order allocator) -/
+def preMax (mm : Option Mm) (maxB : Nat) : Nat :=
+  if resolveMm mm maxB = .order ∧ maxB = 0 then 2^63 else maxB
+
+theorem newNorm_eq (page init minA maxB flags : Nat) (mm : Option Mm) :
+    newNorm page init minA maxB flags mm =
+      if isPow2C minA = false ∨ isPow2C init = false ∨ isPow2C (preMax mm maxB) = false then none
+      else
+        let eM := max (preMax mm maxB) (max minA 1)
+        let mA := match resolveMm mm maxB with
+          | .order => max minA 1
+          | .chunk => max (max minA 1) (eM / 1024)
+          | .mmap => if eM ≤ page then eM else max (max minA 1) page
+        some { size := 2 ^ countOrderNat (min (max init 1) eM), minAlloc := mA,
+               minAllocOrder := countOrderNat mA, maxB := eM, mm := resolveMm mm maxB, flags := flags } := by
+  have hpm : (if (resolveMm mm maxB == Mm.order && maxB == 0) = true then 2 ^ (Gen.MAX_TABLE_ORDER - 1) else maxB)
+      = preMax mm maxB := by
+    simp [preMax, max_table_order_eq]
+  simp only [newNorm, resolve_eq, hpm, min_table_size_eq, max_chunk_table_eq]
+  cases isPow2C minA <;> cases isPow2C init <;> cases isPow2C (preMax mm maxB) <;> simp
+
 /-- **accept/reject exactly as the code** -/
 theorem newNorm_isSome_iff (page init minA maxB flags : Nat) (mm : Option Mm) :
     (newNorm page init minA maxB flags mm).isSome ↔ NewAccepts init minA maxB mm := by
-  unfold newNorm NewAccepts
-  rw [resolve_eq]
+  rw [newNorm_eq]
+  unfold NewAccepts
   by_cases h1 : IsPow2 minA
   · by_cases h2 : IsPow2 init
-    · have c1 : (!isPow2C minA) = false := by simpa [isPow2C_iff] using h1
-      have c2 : (!isPow2C init) = false := by simpa [isPow2C_iff] using h2
-      simp only [c1, c2, Bool.false_eq_true, if_false, h1, h2, true_and]
-      by_cases h0 : (resolveMm mm maxB == Mm.order && maxB == 0) = true
-      · simp only [h0, if_true, max_table_order_eq]
-        have c3 : (!isPow2C (2^63)) = false := by simpa [isPow2C_iff] using ⟨63, rfl⟩
-        simp only [c3, Bool.false_eq_true, if_false, Option.isSome_some, true_iff]
-        simp only [Bool.and_eq_true, beq_iff_eq] at h0
-        exact Or.inr ⟨h0.2, h0.1⟩
-      · simp only [h0, if_false]
-        by_cases h3 : IsPow2 maxB
-        · have c3 : (!isPow2C maxB) = false := by simpa [isPow2C_iff] using h3
-          simp [c3, h3]
-        · have c3 : (!isPow2C maxB) = true := (isPow2C_false_iff _).2 h3
-          simp only [c3, if_true, Option.isSome_none, Bool.false_eq_true, false_iff]
-          rintro (h | ⟨h, h'⟩)
-          · exact h3 h
-          · apply h0; simp [h, h']
-    · have c2 : (!isPow2C init) = true := (isPow2C_false_iff _).2 h2
-      have c1 : (!isPow2C minA) = false := by simpa [isPow2C_iff] using h1
-      simp [c1, c2, h2]
-  · have c1 : (!isPow2C minA) = true := (isPow2C_false_iff _).2 h1
-    simp [c1, h1]
+    · by_cases h3 : IsPow2 (preMax mm maxB)
+      · simp only [pow2c_t h1, pow2c_t h2, pow2c_t h3, Bool.true_eq_false, or_self, if_false,
+          Option.isSome_some, true_iff]
+        refine ⟨h1, h2, ?_⟩
+        unfold preMax at h3
+        split at h3
+        · rename_i hc; exact Or.inr ⟨hc.2, hc.1⟩
+        · exact Or.inl h3
+      · simp only [pow2c_f h3, or_true, if_true, Option.isSome_none, Bool.false_eq_true, false_iff]
+        rintro ⟨-, -, h | ⟨h, h'⟩⟩
+        · apply h3; unfold preMax
+          split
+          · exact ⟨63, rfl⟩
+          · exact h
+        · apply h3; unfold preMax; rw [if_pos ⟨h', h⟩]; exact ⟨63, rfl⟩
+    · simp [pow2c_f h2, h2]
+  · simp [pow2c_f h1, h1]
 
 end UrcuVerif.Lfht.Seq
